@@ -133,3 +133,18 @@ PROPS['C17'] = dict(
     assumptions=[T_CHAIN, 'the UpdateNativeTokenDecimals messages emitted by the factory are delivered to the pairs in the same transaction (chain semantics); registry well-formedness (records stored under the key of their own two distinct assets) is an explicit hypothesis discharged by lemma_registry_wf_preserved / lemma_registry_wf_after_update'],
     explanation='execute_add_native_token_decimals: allow-list entry becomes the new value; for a well-formed registry and an already registered denom EVERY record (loop invariant over the complete listing) has the position(s) of that denom set to the new value and everything else unchanged; first registration touches no record; pair update_native_token_decimals: factory only, decimals replaced iff the denom is one of its native assets.',
 )
+
+PROPS['C20'] = dict(
+    units=[('u_pair.rs', 'A', ['asset', 'shim'])] + [('u_pair.rs', 'A', None, ('pair', [f])) for f in ('withdraw_liquidity', 'lemma_c20_payable', 'lemma_refund_fits', 'lemma_c04')], min_tagged=6, trusted=PAIR_TRUST,
+    assumptions=[T_CHAIN, 'mode A = "does not abort / succeeds": environment services (address (de)canonicalisation, bank / cw20 queries, serialisation) are assumed not to fail -- such failures are outside the statement',
+                 'that the three emitted messages are then executable (the pair holds the refunds and the LP tokens just sent to it; bank and cw20 reject only zero or uncovered amounts) is chain semantics; the refunds are proved >= 1 and <= reserve',
+                 'reachability of states with positive supply and reserves after arbitrary histories rests on C01 (outside the recorded window the ask reserve stays positive)'],
+    explanation='withdraw_liquidity is verified in the NO-ABORT mode: every panicking primitive (Decimal::from_ratio, Uint128 * Decimal, checked arithmetic) carries its abort condition as a precondition. Under "0 < a <= S and r_i*a/S >= r_i/10^18 + 2 for both assets" the body reaches its end with r is Ok, refunds floor(r_i*floor(a*D/S)/D) >= 1 and <= r_i; the helpers on the path (query_pools, to_normal, query_pool, into_msg) are proved to succeed.',
+)
+
+PROPS['C03'] = dict(
+    units=[('u_pair.rs', 'B', None)], min_tagged=20, trusted=PAIR_TRUST,
+    assumptions=[T_CHAIN, 'each transaction is atomic (a failed one repeats the state), so interleavings of actors are sequences of whole operations; router routes are sequences of pair swaps (C13)',
+                 'the ledger effect of the emitted messages (reserves after swap = (x+a, y-n); after provide = (r_i+d_i), supply+m; after withdraw = (r_i-x_i), supply-a) is chain semantics'],
+    explanation='Step lemmas take as hypotheses exactly the predicates proved as postconditions of the real handlers (c01_no_overpay from compute_swap/swap, c05_fair_share from share minting/provide_liquidity, c04_bounds from withdraw_liquidity, native-funds and hook-asset checks so that the credited offer is the delivered one) and conclude that reserve0*reserve1*supply_before^2 <= reserve0\'*reserve1\'*supply_after^2... (cross-multiplied); transitivity + induction over an arbitrary finite sequence of states closes "any history". Inside the recorded compute_swap window the swap step does not hold: known finding C03-W1.',
+)
